@@ -12,6 +12,31 @@ from ..wire import fmt_sig, error_blocks
 from ..etf import load_spec, dispatch_table, DEC, OWNED
 
 
+def _remainder_empty_at(ctx, FB, bb, only_call=None):
+    """Is the unconsumed input of the parser call that last precedes block bb known to have length 0 at bb
+    (whatever form the test takes: is_empty(), len() == 0, a slice pattern ...)?  Returns a description or None."""
+    from ..etf import is_parser_sig
+    calls = []
+    for cb, t in FB.calls():
+        if any(n.startswith(DEC) and is_parser_sig(ctx.F.fns.get(n)) for n in callee_names(t)) and FB.block_dominates(cb, bb):
+            calls.append(cb)
+    if only_call is not None:
+        calls = [c for c in calls if c == only_call]
+    if not calls:
+        return None
+    last = [c for c in calls if not any(c != d and FB.block_dominates(c, d) for d in calls)]
+    R = Ranges(FB)
+    facts = R.facts_at(bb)
+    for k, v in facts.items():
+        if isinstance(k, tuple) and k and k[0] == 'len' and v == (0, 0):
+            txt = str(k)
+            inner = k[1]
+            first_component = isinstance(inner, tuple) and inner and inner[0] == 'place' and inner[2] and inner[2][-1] == '0'
+            if first_component and any((", %d)" % c) in txt for c in last):
+                return 'len(remainder of the call at bb%d) = 0' % last[0]
+    return None
+
+
 def run(ctx):
     P = ctx.P
     spec = load_spec()
@@ -114,15 +139,9 @@ def run(ctx):
         for bb, st in oks:
             k += 1
             inst = '%s:Ok%s' % (fn, '' if len(oks) == 1 else '#%d' % k)
-            good = False
-            for (src, vals, dst) in dominating_edges(FB, bb):
-                sb = FB.switch_bool_edges(src)
-                if sb and sb[0][0] == 'call' and (callee_of(sb[0][2])[0] or '').endswith('is_empty') and dst == sb[1]:
-                    # the tested slice is the remainder returned by a parser
-                    c = canon(FB, sb[0][2]['args'][0])
-                    good = True
+            good = _remainder_empty_at(ctx, FB, bb)
             if good:
-                ctx.ok('C03.4-trailing-data', inst, 'dominated by `remaining.is_empty()`', ctx.where(FB, bb))
+                ctx.ok('C03.4-trailing-data', inst, 'the remainder of the last parser call before it is known to be empty there (%s)' % good, ctx.where(FB, bb))
             else:
                 ctx.bad('C03.4-trailing-data', inst, 'Ok is returned without testing that no bytes remain after the term', ctx.where(FB, bb),
                         key='DOM:%s%s:ok-without-trailing-check' % (DEC, fn))
@@ -144,15 +163,7 @@ def run(ctx):
             d = PC.derived_locals([tt['dst']['l']])
             oks = [b3 for b3, j3, st3 in PC.stmts() if st3['k'] == '=' and st3['pl']['l'] == 0 and st3['rv']['k'] == 'agg' and st3['rv'].get('var') == 'Ok'
                    and b3 in PC.reachable(bb)]
-            tested = bool(oks)
-            for b3 in oks:
-                dom = False
-                for (src, vals, dst) in dominating_edges(PC, b3):
-                    sb = PC.switch_bool_edges(src)
-                    if sb and sb[0][0] == 'call' and (callee_of(sb[0][2])[0] or '').endswith('is_empty') and dst == sb[1] \
-                            and any(l in d for l in PC._op_locals(sb[0][2]['args'][0])):
-                        dom = True
-                tested = tested and dom
+            tested = bool(oks) and all(_remainder_empty_at(ctx, PC, b3, only_call=bb) for b3 in oks)
             if tested:
                 ctx.ok('C03.4-trailing-data', inst, 'every Ok return after it is dominated by is_empty() of the remainder of the buffer this function built (the inflated data)', ctx.where(PC, bb))
             else:
